@@ -38,6 +38,26 @@ type Op struct {
 
 type Case struct {
 	Ops []Op `json:"ops"`
+	// IDs: when present, identifier k (1..len) of the operations stands for IDs[k-1]: the same
+	// histories on identifiers at the edges of the 16-bit range and of narrower encodings
+	// (127/128, 255/256, 32767/32768, the UTF-16 surrogate band 55296..57343, 65533, 65535)
+	IDs []int32 `json:"ids,omitempty"`
+}
+
+func (c Case) id(k int32) int32 {
+	if k >= 1 && int(k) <= len(c.IDs) {
+		return c.IDs[k-1]
+	}
+	return k
+}
+
+var idMaps = [][]int32{
+	nil, nil, nil,
+	{55296, 56000, 57343, 65533},
+	{127, 128, 255, 256},
+	{32767, 32768, 65534, 65535},
+	{1, 257, 65537 - 65536 + 512, 55297},
+	{0xD800, 0xDFFF, 0xFFFD, 0xFFFE},
 }
 
 type reg struct {
@@ -144,6 +164,7 @@ func run(c Case) (msg string, nontrivial bool) {
 	steps = append(steps, Op{Op: "final"})
 	for i, op := range steps {
 		events = events[:0]
+		op.ID = c.id(op.ID)
 		sess := fmt.Sprintf("s%d", op.S)
 		key := fmt.Sprintf("%s/%d", sess, op.ID)
 		if (op.Op == "ins" && op.Kind == "pubrec") || (op.Op == "ack" && op.Kind == "pubrel") {
@@ -342,7 +363,7 @@ func genOp(t *rapid.T) Op {
 func TestRandom(t *testing.T) {
 	rapid.Check(t, func(t *rapid.T) {
 		n := rapid.IntRange(3, 40).Draw(t, "n")
-		c := Case{}
+		c := Case{IDs: rapid.SampledFrom(idMaps).Draw(t, "ids")}
 		for i := 0; i < n; i++ {
 			c.Ops = append(c.Ops, genOp(t))
 		}
@@ -381,6 +402,15 @@ func TestEnum(t *testing.T) {
 				ev.CaseKey(nt, fmt.Sprint(prefix), func() interface{} { return c }, "enum")
 				if msg != "" {
 					ev.Fail(t, "queue-history", c, "%s", msg)
+				}
+				if l <= 3 {
+					// the same history on two identifiers of the UTF-16 surrogate band and on 65533/65535
+					for _, ids := range [][]int32{{55296, 56000}, {65533, 65535}} {
+						ch := Case{Ops: c.Ops, IDs: ids}
+						if msg, _ := run(ch); msg != "" {
+							ev.Fail(t, "queue-history", ch, "%s", msg)
+						}
+					}
 				}
 				return
 			}
